@@ -12,7 +12,7 @@ from . import simple as S
 PROPERTY = "C16"
 META = {
     "explanation": "symbolic execution of the real add/assign methods with the block's frame count a solver variable (every comparison track.nFrames != block.nFrames is solver-decided); operation sequences enumerated",
-    "bounds": {"quick": {"frame_count": "any int >= 0 (symbolic)", "track_lengths": "0-2", "sequence_length": "<= 2", "list_length": "<= 3"},
+    "bounds": {"quick": {"frame_count": "any int >= 0 (symbolic)", "track_lengths": "0-2", "sequence_length": "<= 2", "list_length": "<= 3", "wrong_kinds": "None, other track class, track-like, tuple / list of tracks (quick); + int, str, ndarray, block (thorough)"},
                "thorough": {"frame_count": "any int >= 0 (symbolic)", "track_lengths": "0-3", "sequence_length": "<= 3", "list_length": "<= 3"}},
     "outside_bounds": ["direct mutation of the list returned by .tracks (not through the interface)", "longer sequences / lists"],
     "assumptions": [],
